@@ -63,6 +63,7 @@ def load():
     L.QubitChannel = ico.QubitChannel
     L.ICircuitOperation = ico.ICircuitOperation
     L.ICircuitCompositeOperation = icc.ICircuitCompositeOperation
+    L.CircuitGraphBranch = getattr(icc, "CircuitGraphBranch", None)   # only used as a fault-injection point
     L.IAcquisitionOperation = IAcquisitionOperation
     L.AcquisitionTag = AcquisitionTag
     L.GlobalDurationRegistry = rd.GlobalDurationRegistry
